@@ -2,6 +2,7 @@ import Driver.ClientIO
 import Goirc.Spec.Caps
 import Goirc.Spec.NickScript
 import Goirc.Spec.Register
+import Goirc.Spec.Life
 /-! Driver requests that evaluate the C17–C20 Specs on implementation output. -/
 namespace Driver
 open Go Go.Client
@@ -37,8 +38,22 @@ def nsHandle (st : Option NsState) (ws : List String) : Option NsState × String
     | _, _ => (st, "bad-op")
   | _ => (st, "bad-op")
 
+def lifeEv (t : String) : Option Spec.Life.Ev :=
+  match t with
+  | "R1" => some (.register true) | "R0" => some (.register false)
+  | "C1" => some (.connected true) | "C0" => some (.connected false)
+  | "D1" => some (.disconnected true) | "D0" => some (.disconnected false)
+  | "OK" => some .connectOk | "ERR" => some .connectErr
+  | "AGAINOK" => some .againOk | "AGAINREF" => some .againRefused
+  | "ALIVE" => some .alive | "DEAD" => some .dead | "CAUSE" => some .cause | "CLOSERET" => some .closeRet
+  | "FRESHUP" => some .freshUp | "FRESHDOWN" => some .freshDown | "CWC" => some .closedFired
+  | _ => none
+
 def specHandle (ws : List String) : Option String :=
   match ws with
+  | ["spec06", final, evs] => do
+    let l ← (if evs == "_" then some [] else (evs.splitOn ",").mapM lifeEv)
+    pure (okFail (if final == "1" then Spec.Life.okFinal l else Spec.Life.okPrefix l))
   | ["spec19ls", caps, sasl, adv, out] => do
     pure (okFail (Spec.Caps.okAfterLS (← listDecode caps) (sasl == "1") (← listDecode adv) (← listDecode out)))
   | ["spec19ack", sasl, acked, out] => do
